@@ -55,11 +55,16 @@ func runResize(c *mon.Case, sp spec) {
 	if proto == "surveyor" && opt == mangos.OptionReadQLen {
 		dup = 12 // one survey at a time: let the raw respondent answer it many times
 	}
-	lk, pproto := linkFor(c, proto, tr, true, dup)
+	lk, pproto := linkFor(c, proto, tr, true, dup, sp.Dir == "dial")
+	seq := sp.Seq
+	if len(seq) == 0 {
+		seq = resizeSeq
+	}
 	if lk == nil {
 		return
 	}
 	S, P := lk.S, lk.P
+	defer lk.watchDetach()()
 	if err, pan, _ := safeSet(S, opt, 2); pan != nil || err != nil {
 		c.Count("resize_option_unsupported", 1)
 		return
@@ -108,15 +113,17 @@ func runResize(c *mon.Case, sp spec) {
 				return
 			}
 		}
+		dbg("resize: filling")
 		for i := 0; i < 12; i++ { // queue (2) + whatever the transport buffers
 			feedIn(i)
 		}
 		pace()
+		dbg("resize: filled, parked=%v", receiverParked())
 		for i := 0; i < 50; i++ {
 			if receiverParked() {
 				parkedResizes++
 			}
-			if !set(resizeSeq[i%len(resizeSeq)], "with inbound traffic queued") {
+			if !set(seq[i%len(seq)], "with inbound traffic queued") {
 				return
 			}
 			feedIn(12 + i)
@@ -124,12 +131,14 @@ func runResize(c *mon.Case, sp spec) {
 				pace()
 			}
 		}
+		dbg("resize: 50 resizes done")
 		if !detachedCheck(c, label, "after 50 changes", lk, proto, tr, opt) {
 			return
 		}
 		if !exchangeOrDetached(c, "resize-exchange", label, lk, proto, pproto) {
 			return
 		}
+		dbg("resize: exchange done")
 	} else {
 		if shape == "in" {
 			c.Count("resize_option_unsupported", 1)
@@ -138,7 +147,7 @@ func runResize(c *mon.Case, sp spec) {
 		// WRITEQ-LEN: resize, send, the peer receives — 50 times.  Every iteration is
 		// itself the "subsequent exchange" for the resize before it.
 		for i := 0; i < 50; i++ {
-			if !set(resizeSeq[i%len(resizeSeq)], "between transmissions") {
+			if !set(seq[i%len(seq)], "between transmissions") {
 				return
 			}
 			switch shape {
@@ -150,7 +159,7 @@ func runResize(c *mon.Case, sp spec) {
 					}
 					return
 				}
-				m, _, ok := recvUntil(c, "resize-exchange-peer-recv-stuck:"+label, fmt.Sprintf("%s peer Recv of message %d sent after a %s change", pproto, i, opt), P, b)
+				m, _, ok := recvUntil(c, "resize-exchange-peer-recv-stuck:"+label, "resize-exchange-peer-recv-error:"+label, fmt.Sprintf("%s peer Recv of message %d sent after a %s change", pproto, i, opt), P, b)
 				if !ok {
 					detachedCheck(c, label, "after a change", lk, proto, tr, opt)
 					return
@@ -177,7 +186,7 @@ func runResize(c *mon.Case, sp spec) {
 	c.Count("resizes_with_receiver_parked_on_full_queue", parkedResizes)
 	c.Count("traffic_units", fed)
 	c.Nontrivial()
-	c.Sig("resize|%s|%s|%s|parked=%v", proto, opt, tr, parkedResizes > 0)
+	c.Sig("resize|%s|%s|%s|%s|%v|parked=%v", proto, opt, tr, sp.Dir, seq, parkedResizes > 0)
 }
 
 // =============================================================================
@@ -238,7 +247,7 @@ func runUnsup(c *mon.Case, sp spec) {
 	if !probe(newSock(c, proto), "fresh socket") {
 		return
 	}
-	lk, pproto := linkFor(c, proto, tr, false, 1)
+	lk, pproto := linkFor(c, proto, tr, false, 1, false)
 	if lk == nil {
 		return
 	}
@@ -279,7 +288,7 @@ func forwarders(base mon.GoroutineBaseline) []mon.G {
 func runDevice(c *mon.Case, sp spec) {
 	proto, tr := sp.Proto, sp.Tran
 	base := mon.TakeBaseline()
-	lk, pproto := linkFor(c, proto, tr, false, 1)
+	lk, pproto := linkFor(c, proto, tr, false, 1, false)
 	if lk == nil {
 		return
 	}
